@@ -457,6 +457,13 @@ class ExprMixin:
             self.event('rng', 'global', attr, node,
                        f'{src(node)} refers to the global NumPy generator (numpy.random.{attr})')
             return AV(['func'], fn=[('globalrng', full)])
+        if dotted == 'random' and attr not in ('Random', 'SystemRandom'):
+            self.event('rng', 'global', attr, node, f'{src(node)} refers to the global generator of the stdlib random module')
+            return AV(['func'], fn=[('globalrng', full)])
+        root = full.split('.')[0]
+        if root not in models.KNOWN_ROOTS:
+            self.event('unknown', None, 'name', node,
+                       f'{src(node)}: module {root} is outside the modelled libraries (ambient state / unknown effects)', soft=True)
         return AV(['func'], fn=[('lib', full)])
 
     # ---- subscripts
